@@ -168,6 +168,23 @@ def use_size(m: int, st: Stats, path) -> list[bytes]:
     return keys
 
 
+def use_sam(m: int) -> None:
+    """A state-changing transition only: the approximate SAM computer (which shares the memoised structure) used at size m."""
+    v, Ks = probe_games(m)
+    for K in Ks[:2]:
+        g = new_game(m, "sam_apx_1")
+        apply_op(g, v, ("reset", K))
+        g.compute_bounds()
+        g.compute_bounds()
+
+
+def do_token(tok, st: Stats, path):
+    if tok[0] == "s":
+        use_sam(tok[1])
+        return None
+    return use_size(tok[1], st, path)
+
+
 def cache_explore(sizes: tuple) -> Stats:
     """BFS over cache states (= set of player counts already memoised). Each (state, size) transition is executed on a
     cache brought into that state by clear + replay; the observable result of using size m must be the same in every state
@@ -179,31 +196,40 @@ def cache_explore(sizes: tuple) -> Stats:
     frontier = [frozenset()]
     result_of: dict[int, list[bytes]] = {}
     seen = {frozenset()}
+    # tokens: ("c", m) = the cached computer used at size m (compared with the reference); ("s", m) = the SAM approximation used at
+    # size m (it shares the memoised structure: a pure state-changing transition)
+    tokens = [("c", m) for m in sizes] + [("s", m) for m in sizes[:3]]
     while frontier:
         nxt = []
         for state in frontier:
-            for m in sizes:
+            for tok in tokens:
+                m = tok[1]
                 path = canonical_path[state]
                 clear_caches()
                 scratch = Stats()
                 for p in path:       # restore: replay the canonical first-use path
-                    use_size(p, scratch, path)
-                keys = use_size(m, st, path + (m,))
+                    do_token(p, scratch, path)
+                keys = do_token(tok, st, path + (tok,))
                 st.transitions += 1
-                for q in sorted(state | {m}):
+                if keys is None:     # SAM transition: afterwards the cached computer must still agree with the reference at that size
+                    keys = use_size(m, st, path + (tok, ("c", m)))
+                    new_state = frozenset(state | {tok, ("c", m)})
+                else:
+                    new_state = frozenset(state | {tok})
+                for q in sorted({t[1] for t in new_state}):
                     d = structure_digest(q)
                     if d is None:
                         st.note("memoised structure not accessible by its current name: in-place mutation check skipped")
                     elif d != "ok":
-                        st.violation(f"[cache] {d} after first-use order {path + (m,)}", engine="cache", path=list(path + (m,)), m=q, n=q)
+                        st.violation(f"[cache] {d} after first-use order {path + (tok,)}", engine="cache", path=[list(t) for t in path + (tok,)], m=q, n=q)
                 if m in result_of and result_of[m] != keys:
-                    st.violation(f"[cache] result for {m} players depends on which sizes were used before: order {path + (m,)}",
-                                 engine="cache", path=list(path + (m,)), m=m, n=m)
+                    st.violation(f"[cache] result of the cached computer for {m} players depends on what was used before: order {path + (tok,)}",
+                                 engine="cache", path=[list(t) for t in path + (tok,)], m=m, n=m)
                 result_of.setdefault(m, keys)
-                new = frozenset(state | {m})
-                if new not in seen:
+                new = new_state
+                if new not in seen and len(new) <= len(sizes) + 2:
                     seen.add(new)
-                    canonical_path[new] = path + (m,)
+                    canonical_path[new] = path + ((tok,) if tok[0] == "c" else (tok, ("c", m)))
                     nxt.append(new)
                     st.states += 1
                 if st.nviol >= 3:
@@ -211,7 +237,7 @@ def cache_explore(sizes: tuple) -> Stats:
         frontier = nxt
     st.states += 1
     st.traces += st.transitions
-    st.sample({"cache_states": len(seen), "sizes": list(sizes), "example_first_use_order": list(canonical_path[max(seen, key=len)])})
+    st.sample({"cache_states": len(seen), "sizes": list(sizes), "example_first_use_order": [list(t) for t in canonical_path[max(seen, key=len)]]})
     # every complete first-use ORDER explicitly for small size sets (each order is a path of the graph above)
     for perm in itertools.permutations(sizes[:4]):
         clear_caches()
@@ -296,10 +322,12 @@ def replay(doc: dict):
     if doc.get("engine") == "cache":
         st = Stats()
         clear_caches()
-        path = tuple(doc["path"])
-        for m in path:
-            use_size(m, st, path)
-        bad = [structure_digest(q) for q in set(path)]
+        path = tuple(tuple(t) if isinstance(t, list) else ("c", t) for t in doc["path"])
+        for t in path:
+            do_token(t, st, path)
+        for m_ in {t[1] for t in path}:
+            use_size(m_, st, path)
+        bad = [structure_digest(q) for q in {t[1] for t in path}]
         bad = [b for b in bad if b not in (None, "ok")]
         clear_caches()
         msg = "; ".join([v["message"] for v in st.violations] + bad)
